@@ -108,22 +108,11 @@ def run(args, drv):
     work = os.environ['PL_DB']
     base = args['base_db']
     max_k = int(args.get('max_k', 60))
-    inrun = {'on': False}
-    orig_run_sql = sqlmod.SQLExecutor.run_sql
-
-    def run_sql(self, sql, capture=False, execute=False):
-        prev = inrun['on']
-        inrun['on'] = bool(execute)
-        try:
-            return orig_run_sql(self, sql, capture=capture, execute=execute)
-        finally:
-            inrun['on'] = prev
-    sqlmod.SQLExecutor.run_sql = run_sql
+    inrun = drv.INRUN
     if args.get('scope') == 'all':
         drv.FAULT['match'] = None
     else:
         drv.FAULT['match'] = lambda _sql: inrun['on']
-    drv.INRUN = inrun
 
     def restore(src):
         for alias in connections:
